@@ -651,3 +651,8 @@ TECHNIQUE = "Coq proof (lia over the zone model; float part through Flocq's bina
 # ---- model = code theorems for the Interval construction (appended) ----
 TRUSTED = [t for t in TRUSTED] + ["model_is_code_interval_new (+ _shape, _diff, _sub_datetime, _rsub_datetime, _date_diff, _date_sub_date): Interval.__new__ up to its delta, DateTime.diff / __sub__ / __rsub__ with a datetime operand, Date.diff / __sub__ with a date operand and pendulum.naive are translated from /repo on every run (Gen/IntervalGlue.v, tools/vlib/gens/g17_interval_glue.py) and Model/IntervalLen.v interval_new_delta is PROVED equal to the translated __new__ for every pair of well-formed objects (class-tagged objects of Model/IntervalObj.v: native date / native datetime / pendulum Date / pendulum DateTime) and both values of absolute; the `-` / diff entry points are proved to be 'normalise the operand (pendulum.naive with fold 1 / DateTime.instance / unchanged), then Interval(...)' over the translated pieces. By hand: the class-tagged object model and its native primitives (comparison, subtraction, utcoffset, constructors: tied to CPython by C11's spec_is_stdlib_* theorems), isinstance as tests on the class tag, datetime(...)/date(...) of interval.py = the native constructors, the tail Duration.__new__(cls, seconds=delta.total_seconds()) (Spec/TdFloat.v + Model/Duration.v, C09). STILL hand-written + pinned only: Interval.__init__ (endpoint normalisation through pendulum.instance, _invert, the absolute swap, precise_diff), the component properties, in_*, __contains__, as_duration, __abs__/__neg__, the link from norm_operand to normalise_operand/instance_ep of the model (canonical timezone object of a foreign tzinfo), interval_make / dt_sub as whole records"]
 LEVEL_NOTE = LEVEL_NOTE + " " + "model_is_code_interval_new (+ _shape, _diff, _sub_datetime, _rsub_datetime, _date_diff, _date_sub_date): Interval.__new__ up to its delta, DateTime.diff / __sub__ / __rsub__ with a datetime operand, Date.diff / __sub__ with a date operand and pendulum.naive are translated from /repo on every run (Gen/IntervalGlue.v, tools/vlib/gens/g17_interval_glue.py) and Model/IntervalLen.v interval_new_delta is PROVED equal to the translated __new__ for every pair of well-formed objects (class-tagged objects of Model/IntervalObj.v: native date / native datetime / pendulum Date / pendulum DateTime) and both values of absolute; the `-` / diff entry points are proved to be 'normalise the operand (pendulum.naive with fold 1 / DateTime.instance / unchanged), then Interval(...)' over the translated pieces. By hand: the class-tagged object model and its native primitives (comparison, subtraction, utcoffset, constructors: tied to CPython by C11's spec_is_stdlib_* theorems), isinstance as tests on the class tag, datetime(...)/date(...) of interval.py = the native constructors, the tail Duration.__new__(cls, seconds=delta.total_seconds()) (Spec/TdFloat.v + Model/Duration.v, C09). STILL hand-written + pinned only: Interval.__init__ (endpoint normalisation through pendulum.instance, _invert, the absolute swap, precise_diff), the component properties, in_*, __contains__, as_duration, __abs__/__neg__, the link from norm_operand to normalise_operand/instance_ep of the model (canonical timezone object of a foreign tzinfo), interval_make / dt_sub as whole records" + "."
+
+
+# ---- model = code theorems for Interval.__init__ / components (appended) ----
+TRUSTED = [t for t in TRUSTED] + ["model_is_code_interval_init / _interval_init_shape / _interval_make / _instance_ep: Interval.__init__ is translated from /repo up to precise_diff (endpoint normalisation through the translated pendulum.instance -> DateTime.instance(tz=UTC) / pendulum.date, native rebuilds WITH fold, _invert, the absolute swap; its attribute stores become the returned tuple: recognised shape) and proved equal to the endpoint part of interval_make; interval_make as a WHOLE record = translated __new__ delta + duration_of_float_seconds + translated __init__; one endpoint = instance_ep (identity convention: 0 = None, pendulum.UTC = 1 = UTC_ID). Still hand-written + pinned: the link of the `-` operand normalisation to normalise_operand for a native AWARE operand carrying a FOREIGN tzinfo (zoneinfo key / utcoffset-derived fixed offset / tzname: _safe_timezone's non-pendulum branches are not translated; the object model only has pendulum timezone objects), __abs__, __neg__, __contains__, as_duration, _getstate, dt_sub / dt_rsub as whole records"]
+LEVEL_NOTE = LEVEL_NOTE + " " + "model_is_code_interval_init / _interval_init_shape / _interval_make / _instance_ep: Interval.__init__ is translated from /repo up to precise_diff (endpoint normalisation through the translated pendulum.instance -> DateTime.instance(tz=UTC) / pendulum.date, native rebuilds WITH fold, _invert, the absolute swap; its attribute stores become the returned tuple: recognised shape) and proved equal to the endpoint part of interval_make; interval_make as a WHOLE record = translated __new__ delta + duration_of_float_seconds + translated __init__; one endpoint = instance_ep (identity convention: 0 = None, pendulum.UTC = 1 = UTC_ID). Still hand-written + pinned: the link of the `-` operand normalisation to normalise_operand for a native AWARE operand carrying a FOREIGN tzinfo (zoneinfo key / utcoffset-derived fixed offset / tzname: _safe_timezone's non-pendulum branches are not translated; the object model only has pendulum timezone objects), __abs__, __neg__, __contains__, as_duration, _getstate, dt_sub / dt_rsub as whole records" + "."
